@@ -805,3 +805,31 @@ Proof.
     - intros _ k. cbn. lia. }
   apply HI. intros [c k0] Hin. apply (Hpar c k0). exact Hin.
 Qed.
+
+(* ------------------------------------------------------------------ the exact formula, and where it fails *)
+
+(* inside the range of time.Duration the saturation-aware chain is the exact one *)
+Lemma chain_verdicts_in_range : forall t0 d l p, tick_chain t0 d p l = true ->
+  Forall (fun v => snd v = true -> fst v = true) (chain_verdicts t0 d p l).
+Proof.
+  intros t0 d. induction l as [|[c k] l IH]; intros p H; cbn [chain_verdicts]; constructor.
+  - cbn [fst snd]. intros Hr. cbn [tick_chain] in H. rewrite Hr in H.
+    apply andb_true_iff in H as [H _]. exact H.
+  - apply IH. cbn [tick_chain] in H. apply andb_true_iff in H as [_ H]. exact H.
+Qed.
+
+(* beyond 2^63-1 ns (about 292.47 years) the tick is not the number of elapsed periods:
+   first commit 1970-01-01, second 2300-01-01 (monotone committer times), 24 h ticks *)
+Lemma tick_refuted_beyond_292_years :
+  exists cfg c0 c1 s' k,
+    let d := initialize (configure cfg) in
+    let t0 := spec_t0 (c_when c0) d in
+    0 < d /\ c_when c0 <= c_when c1 /\
+    run (init_sys cfg) [OConsume 0 0 c0; OConsume 0 1 c1] = (s', [RTick 0; RTick k]) /\
+    k = 106751 /\ Z.max 0 ((c_when c1 - t0) / d) = 120530 /\
+    in_range t0 (c_when c1) = false.
+Proof.
+  exists (CHours 24), {| c_hash := 1; c_when := time_of_unix 0 0; c_parents := 0 |},
+         {| c_hash := 2; c_when := time_of_unix 10413792000 0; c_parents := 1 |}.
+  eexists. exists 106751. vm_compute. repeat split; try reflexivity; discriminate.
+Qed.
